@@ -319,6 +319,59 @@ class Fs:
         return ents
 
 
+# ---- extended attributes
+XATTR_MAGIC = 0xEA020000
+XATTR_PREFIX = {1: "user.", 2: "system.posix_acl_access", 3: "system.posix_acl_default", 4: "trusted.", 6: "security.", 7: "system.", 8: "system.richacl"}
+
+
+def _xattr_entries(buf, start, value_base, limit):
+    """entries from buf[start:], values at value_base + e_value_offs; returns list of (index, name, value|('ea_inode', ino), hash, raw_entry_offset)"""
+    out, o = [], start
+    while o + 4 <= limit:
+        if struct.unpack_from("<I", buf, o)[0] == 0:
+            break
+        if o + 16 > limit:
+            raise FormatError("xattr entry overruns")
+        nl, idx, voff, vino, vsize, h = struct.unpack_from("<BBHIII", buf, o)
+        if o + 16 + nl > limit:
+            raise FormatError("xattr name overruns")
+        name = bytes(buf[o + 16:o + 16 + nl])
+        if vino:
+            val = ("ea_inode", vino, vsize)
+        else:
+            if value_base + voff + vsize > len(buf) or (vsize and value_base + voff < 0):
+                raise FormatError("xattr value out of bounds")
+            val = bytes(buf[value_base + voff:value_base + voff + vsize])
+        out.append((idx, name, val, h, o))
+        o += (16 + nl + 3) & ~3
+    return out
+
+
+def xattrs(fs, ino, inode=None):
+    """{full name: value} of an inode, from the inode body and the xattr block"""
+    inode = inode or fs.inode(ino)
+    res = {}
+    raw = inode["raw"]
+    if fs.inode_size > 128:
+        base = 128 + inode["extra_isize"]
+        if base + 4 <= fs.inode_size and struct.unpack_from("<I", raw, base)[0] == XATTR_MAGIC:
+            for idx, name, val, h, o in _xattr_entries(raw, base + 4, base + 4, fs.inode_size):
+                res[XATTR_PREFIX.get(idx, "idx%d." % idx) + name.decode("latin1")] = val
+    if inode["file_acl"]:
+        blk = fs.block(inode["file_acl"])
+        if struct.unpack_from("<I", blk, 0)[0] != XATTR_MAGIC:
+            raise FormatError("bad xattr block magic for inode %d" % ino)
+        for idx, name, val, h, o in _xattr_entries(blk, 32, 0, fs.bs):
+            res[XATTR_PREFIX.get(idx, "idx%d." % idx) + name.decode("latin1")] = val
+    for k, v in list(res.items()):
+        if isinstance(v, tuple):
+            try:
+                res[k] = fs.file_data(v[1])[:v[2]]
+            except Exception:
+                res[k] = b"<unreadable ea_inode %d>" % v[1]
+    return res
+
+
 # ---- whole-tree view (independent reading), used by the tool-level oracles
 import hashlib as _hl
 
@@ -363,6 +416,13 @@ def tree(fs, with_times=False, max_nodes=200000):
             ib = struct.unpack_from("<II", i["i_block"], 0)
             kind = {0x1000: "fifo", 0x2000: "chr", 0x6000: "blk", 0xC000: "sock"}.get(fmt, "other%x" % fmt)
             ent = (kind, i["mode"] & 0o7777, i["uid"], i["gid"], ib[0] or ib[1], i["links"], "")
+        try:
+            xa = xattrs(fs, ino, i)
+            xa.pop("system.data", None)
+        except (FormatError, struct.error):
+            xa = {"<unreadable>": b""}
+        if xa:
+            ent = ent + (tuple(sorted((k, _hl.sha256(v).hexdigest()[:12]) for k, v in xa.items())),)
         if with_times:
             ent = ent + (i["mtime"],)
         out[path] = ent
